@@ -282,6 +282,16 @@ func ExploreCLI(c *core.Check, fam string) *Result {
 			defer wg.Done()
 			cmd := exec.Command(h, c.Tier, fmt.Sprint(i), fmt.Sprint(n))
 			cmd.Env = append(os.Environ(), "GOMAXPROCS=2")
+			// the shard keeps the scratch trees of its executions under one directory that belongs to
+			// this runner and is removed when the shard has exited, however it exited
+			shm := ""
+			if fi, err := os.Stat("/dev/shm"); err == nil && fi.IsDir() {
+				shm = "/dev/shm"
+			}
+			if base, err := os.MkdirTemp(shm, "clisched"); err == nil {
+				defer os.RemoveAll(base)
+				cmd.Env = append(cmd.Env, "CLISCHED_BASE="+base)
+			}
 			var so, se bytes.Buffer
 			cmd.Stdout, cmd.Stderr = &so, &se
 			if err := cmd.Run(); err != nil {
